@@ -97,6 +97,8 @@ type result struct {
 	// instrumented run only
 	notReverted bool   // the outermost frame returned an error after taking a snapshot that it never reverted
 	faultOp     string // the operation that was executing when the run panicked
+	ghosts      int    // observation: reverted nested frames whose balance records survived
+	ghostOpener string
 	steps       uint64
 	exceeded    bool
 	frames      int
@@ -223,6 +225,7 @@ func run(w *world, ref *state.StateDB, preRoot common.Hash, code []byte, c confi
 	}
 	if p != nil {
 		r.steps, r.exceeded, r.frames, r.maxDepth, r.reverts = p.steps, p.exceeded, p.nframes, p.maxDepth, p.nreverts
+		r.ghosts, r.ghostOpener = p.ghostRecords, p.ghostOpener
 		if r.panicked && p.curSet {
 			r.faultOp = p.curOp.String()
 			if strings.HasPrefix(r.faultOp, "Missing") {
